@@ -11,8 +11,16 @@
 (*        add_class_arguments(Base, "m")); the target is its parameter p   *)
 (* Classes: Base(p, q), Sub(Base)(p, q, r), NoP(Base)(q) -- NoP does not   *)
 (* define the targeted parameter.  With req the targets have no default.   *)
-(* A link is [srcs, fn, tgt]: srcs over {"a","b","g"}, tgt in {"t","d",    *)
-(* "mp"}, fn one of the injective compute functions below.                 *)
+(* A link is [srcs, fn, tgt]: srcs over {"a","b","g","o","s","sl"}, tgt in *)
+(* {"t","d","mp"}, fn one of the injective compute functions below.        *)
+(* Optional sources: o is a plain Optional[Union[int,str,List[int]]]       *)
+(* argument (default None); s is an Optional[Src] class argument (default  *)
+(* None) with Src(limit = None, q), SrcSub(Src)(limit = 5, q) and          *)
+(* SrcNoL(Src)(q); "sl" is its init_arg s.init_args.limit, "s" the whole   *)
+(* argument.  Their values range over None, 0, 3, '' and [].               *)
+(* The enclosing spec m can also come from its own file (chan "file": the  *)
+(* option is given the path; "cfgfile": a main config file names it), so   *)
+(* that it carries __path__ and save() writes it as a sub-config file.     *)
 (*                                                                         *)
 (* Ref   what the property states about an observed outcome (TargetEq,     *)
 (*       NotRequired, PlainOptionRejected, DumpHidesTarget, Reconstructed) *)
@@ -33,14 +41,22 @@ NsV(x, y)    == [k |-> "ns", x |-> x, y |-> y]        \* Namespace(x=x, y=y): a 
 ClsV(c, ia)  == [k |-> "cls", c |-> c, ia |-> ia]     \* class_path + init_args (a function parameter -> value)
 ListV(items) == [k |-> "list", v |-> items]
 GrpV(ia)     == [k |-> "grp", ia |-> ia]              \* the namespace of a class group
+StrE         == [k |-> "str", v |-> ""]               \* the empty string
+EList        == [k |-> "elist"]                       \* the empty list
+PathV        == [k |-> "path"]                        \* the value carries __path__ (it was loaded from its own file)
+RefV         == [k |-> "ref"]                         \* in a saved main file: the name of a sub-config file
 
-Params(c) == CASE c = "Base" -> {"p", "q"} [] c = "Sub" -> {"p", "q", "r"} [] c = "NoP" -> {"q"} [] OTHER -> {}
+Params(c) == CASE c = "Base" -> {"p", "q"} [] c = "Sub" -> {"p", "q", "r"} [] c = "NoP" -> {"q"}
+               [] c \in {"Src", "SrcSub"} -> {"limit", "q"} [] c = "SrcNoL" -> {"q"} [] OTHER -> {}
 Put(f, x, v) == [y \in DOMAIN f \cup {x} |-> IF y = x THEN v ELSE f[y]]
 Drop(f, x)   == [y \in DOMAIN f \ {x} |-> f[y]]
 
 \* ------------------------------------------------------------------ shapes, links, compute functions
 Targets(shape)   == {shape.links[i].tgt : i \in DOMAIN shape.links}
 HasM(shape)      == "mp" \in Targets(shape)
+SourcesOf(shape) == UNION {{shape.links[i].srcs[j] : j \in DOMAIN shape.links[i].srcs} : i \in DOMAIN shape.links}
+HasS(shape)      == SourcesOf(shape) \cap {"s", "sl"} # {}
+HasO(shape)      == "o" \in SourcesOf(shape)
 \* the compute functions are injective on the value domain, and not symmetric
 FnApply(fn, args) ==
   CASE fn = "id"     -> args[1]                                           \* no compute function: the source itself
@@ -48,14 +64,25 @@ FnApply(fn, args) ==
     [] fn = "lin"    -> Int(10 * args[1].v + args[2].v)
     [] fn = "grp"    -> Int(10 * args[1].x + args[1].y)                   \* receives the Namespace of the group
     [] fn = "asdict" -> DictV(args[1].x, args[1].y)                       \* no function, mapping-typed target: as_dict (:305-310)
-SrcVal(c, s) == IF s = "g" THEN NsV(c.gx.v, c.gy.v) ELSE c[s]
+    \* total on the Optional domain: None, '', [] and the integers get different results
+    [] fn = "tot"    -> (CASE args[1].k = "none" -> Int(91) [] args[1].k = "str" -> Int(92) [] args[1].k = "elist" -> Int(93)
+                           [] OTHER -> Int(10 * args[1].v + 7))
+    \* of a whole Optional[Class] argument: None, or which class
+    [] fn = "cls"    -> (CASE args[1].k = "none" -> Int(94) [] args[1].c = "Src" -> Int(1) [] args[1].c = "SrcSub" -> Int(2) [] OTHER -> Int(3))
+SrcVal(c, s) == IF s = "g" THEN NsV(c.gx.v, c.gy.v) ELSE IF s = "sl" THEN c.s.ia["limit"] ELSE c[s]
+\* a source inside a class argument exists only if the argument holds a class that defines it; a source whose value
+\* is None (or 0, '', []) does exist
+SourceExists(c, s) == s # "sl" \/ (c.s.k = "cls" /\ "limit" \in DOMAIN c.s.ia)
+Live(c, l)     == \A j \in DOMAIN l.srcs : SourceExists(c, l.srcs[j])
 Expected(c, l) == FnApply(l.fn, [j \in DOMAIN l.srcs |-> SrcVal(c, l.srcs[j])])
 
 \* ------------------------------------------------------------------ Ref
 \* every instance of the target that exists in c holds the function of the FINAL source values
+\* (a link whose source does not exist is ignored: the property says nothing about its target then)
 TargetEqLink(shape, c, l) ==
   LET e == Expected(c, l) IN
-  CASE l.tgt \in {"t", "d"} -> c[l.tgt] = e
+  CASE ~Live(c, l) -> TRUE
+    [] l.tgt \in {"t", "d"} -> c[l.tgt] = e
     [] l.tgt = "mp" ->
          CASE c.m.k = "grp"  -> "p" \in DOMAIN c.m.ia /\ c.m.ia["p"] = e
            [] c.m.k = "cls"  -> ("p" \in Params(c.m.c)) => ("p" \in DOMAIN c.m.ia /\ c.m.ia["p"] = e)
@@ -86,11 +113,22 @@ DumpHidesTarget(shape, dump) == \A i \in DOMAIN shape.links : HidesTargetLink(du
 \* re-parsing the dump gives the targets back
 TargetsOf(shape, c) == [i \in DOMAIN shape.links |->
    LET l == shape.links[i] IN
-   IF l.tgt \in {"t", "d"} THEN <<c[l.tgt]>>
+   IF ~Live(c, l) THEN <<"ignored">>
+   ELSE IF l.tgt \in {"t", "d"} THEN <<c[l.tgt]>>
    ELSE IF c.m.k \in {"grp", "cls"} THEN <<IF "p" \in DOMAIN c.m.ia THEN c.m.ia["p"] ELSE Absent>>
    ELSE IF c.m.k = "list" THEN [n \in DOMAIN c.m.v |-> IF "p" \in DOMAIN c.m.v[n].ia THEN c.m.v[n].ia["p"] ELSE Absent]
    ELSE << >>]
-Reconstructed(shape, c, re) == re.ok /\ TargetEq(shape, re.c) /\ TargetsOf(shape, re.c) = TargetsOf(shape, c)
+\* (the targets come back provided the text preserved the sources -- that is C01's property, and dump(skip_none=True)
+\* does lose an explicit None whose default is not None; C15 asks that the links are applied again to what is read)
+LiveSources(shape, c) == [i \in DOMAIN shape.links |-> IF Live(c, shape.links[i])
+                                                          THEN [j \in DOMAIN shape.links[i].srcs |-> SrcVal(c, shape.links[i].srcs[j])] ELSE <<"ignored">>]
+Reconstructed(shape, c, re) == /\ re.ok /\ TargetEq(shape, re.c)
+                               /\ LiveSources(shape, re.c) = LiveSources(shape, c) => TargetsOf(shape, re.c) = TargetsOf(shape, c)
+\* save(): no written file contains a target.  main = the configuration read back from the main file (m may be the
+\* name of a sub-config file), sub = what the sub-config file of m holds (Absent if none was written)
+SaveHidesTarget(shape, main, sub) ==
+  /\ DumpHidesTarget(shape, IF main.m.k = "ref" THEN [main EXCEPT !.m = NoneV] ELSE main)
+  /\ HasM(shape) => (sub.k \in {"grp", "cls"} => "p" \notin DOMAIN sub.ia)
 
 \* link creation (_initial_input_checks:234-255): no chains, no double targets
 \* created = the keys of the links accepted so far, as [srcs, tgt]; a new link [srcs, tgt] must be rejected iff ...
@@ -106,30 +144,48 @@ RefLinkAllowed(created, new) ==
 \* ActionLink.__init__:160-188 -- the target action is replaced by the link action (default SUPPRESS, :217-224), the
 \* target leaves required_args (:181-182), a target inside a class argument is registered in linked_targets
 \* (:183-188) so that the class parser neither requires it (_typehints.py:653-656, _signatures.py:355-358: default None)
-DefaultIA(shape, c) == [x \in Params(c) |-> IF x = "p" THEN (IF shape.req THEN NoneV ELSE Int(0)) ELSE Int(0)]
+DefaultIA(shape, c) == [x \in Params(c) |-> IF x = "p" THEN (IF shape.req THEN NoneV ELSE Int(0))
+                                             ELSE IF x = "limit" THEN (IF c = "SrcSub" THEN Int(5) ELSE NoneV) ELSE Int(0)]
 Defaults(shape) ==
   [a |-> Int(1), b |-> Int(2), gx |-> Int(1), gy |-> Int(2),
    t |-> Absent, d |-> Absent,                                              \* link targets have no default of their own
    m |-> IF ~HasM(shape) THEN Absent
          ELSE IF shape.mkind = "grp" THEN GrpV([x \in {"q"} |-> Int(0)])    \* the linked parameter p is not in the defaults
-         ELSE NoneV]
+         ELSE NoneV,
+   s |-> IF HasS(shape) THEN NoneV ELSE Absent, o |-> IF HasO(shape) THEN NoneV ELSE Absent,
+   mpath |-> Absent]                                                        \* meta: m carries __path__
 Err == [ok |-> FALSE, c |-> Defaults([links |-> << >>, mkind |-> "init", req |-> FALSE, sub |-> FALSE])]
 Ok(c) == [ok |-> TRUE, c |-> c]
 
-\* a class spec item: [k |-> "spec", c |-> class, given |-> init_args given]; on a change of class the init_args
-\* that the new class accepts are kept (discard_init_args_on_class_path_change), new ones get their defaults
+\* a class spec item: [k |-> "spec", c |-> class, given |-> init_args given].  While the sources are merged a class
+\* value holds only the init_args that were GIVEN; on a change of class the given ones that the new class accepts are
+\* kept (discard_init_args_on_class_path_change).  The defaults of the class are filled in afterwards
+\* (ActionTypeHint.add_sub_defaults, _core.py:371-373) -- before the links are applied.
 NewCls(shape, prev, spec) ==
   LET old == IF prev.k = "cls" THEN prev.ia ELSE << >> IN
-  ClsV(spec.c, [x \in Params(spec.c) |-> IF x \in DOMAIN spec.given THEN spec.given[x]
-                                         ELSE IF x \in DOMAIN old THEN old[x] ELSE DefaultIA(shape, spec.c)[x]])
+  ClsV(spec.c, [x \in Params(spec.c) \cap (DOMAIN spec.given \cup DOMAIN old) |-> IF x \in DOMAIN spec.given THEN spec.given[x] ELSE old[x]])
 FreshCls(shape, spec) == NewCls(shape, NoneV, spec)
+FillCls(shape, v) == ClsV(v.c, [x \in Params(v.c) |-> IF x \in DOMAIN v.ia THEN v.ia[x] ELSE DefaultIA(shape, v.c)[x]])
+AddSubDefaults(shape, c) ==
+  [c EXCEPT !.s = IF c.s.k = "cls" THEN FillCls(shape, c.s) ELSE c.s,
+            !.m = IF c.m.k = "cls" THEN FillCls(shape, c.m)
+                  ELSE IF c.m.k = "list" THEN ListV([n \in DOMAIN c.m.v |-> FillCls(shape, c.m.v[n])]) ELSE c.m]
 \* one supplied item; r = [ok, c]
 Assign(shape, c, it) ==
   CASE it.key \in {"a", "b", "gx", "gy"} -> Ok([c EXCEPT ![it.key] = it.val])
     [] it.key \in {"t", "d"} ->
          IF it.chan = "argv" THEN Err                                       \* ActionLink.__call__:257-259
          ELSE Ok([c EXCEPT ![it.key] = it.val])                             \* checked against the target's type, kept until the links run
-    [] it.key = "m" ->
+    [] it.key \in {"o"} -> Ok([c EXCEPT !.o = it.val])
+    [] it.key = "s" -> Ok([c EXCEPT !.s = IF it.val.k = "null" THEN NoneV ELSE NewCls(shape, c.s, it.val)])
+    [] it.key = "sl" ->        \* --s.limit=v: the declared class itself when s is None; an error if the class has no limit
+         LET cur == IF c.s.k = "cls" THEN c.s ELSE FreshCls(shape, [c |-> "Src", given |-> << >>]) IN
+         IF "limit" \in Params(cur.c) THEN Ok([c EXCEPT !.s = ClsV(cur.c, Put(cur.ia, "limit", it.val))]) ELSE Err
+    [] it.key = "m" /\ it.chan \in {"file", "cfgfile"} ->        \* the spec comes from its own file: __path__ stays from now on
+         IF shape.mkind = "init" THEN Ok([c EXCEPT !.m = NewCls(shape, c.m, it.val), !.mpath = PathV])
+         ELSE Ok([c EXCEPT !.m = GrpV([x \in DOMAIN c.m.ia \cup DOMAIN it.val.given |->
+                                         IF x \in DOMAIN it.val.given THEN it.val.given[x] ELSE c.m.ia[x]]), !.mpath = PathV])
+    [] it.key = "m" /\ it.chan \notin {"file", "cfgfile"} ->
          (CASE shape.mkind = "init" -> Ok([c EXCEPT !.m = NewCls(shape, c.m, it.val)])
             \* a list replaces the list; when the lengths agree item n keeps the init_args of the previous item n that
             \* its class accepts (_typehints.py:894-895)
@@ -164,14 +220,15 @@ ApplyParsingLinks(shape, c, i) ==
   IF i > Len(shape.links) THEN c
   ELSE LET l == shape.links[i]
            args == [j \in DOMAIN l.srcs |-> SrcVal(c, l.srcs[j])]                            \* :286-297
-       IN ApplyParsingLinks(shape, SetTargetValue(shape, c, l, FnApply(l.fn, args)), i + 1)   \* :301-323
+       IN IF ~Live(c, l) THEN ApplyParsingLinks(shape, c, i + 1)      \* :289-294,298-299 `source_key not in cfg`: the link is ignored
+          ELSE ApplyParsingLinks(shape, SetTargetValue(shape, c, l, FnApply(l.fn, args)), i + 1)   \* :301-323
 \* validate / check_required (_core.py:1097-1106): the plain targets were removed from required_args, and they have a value by now
 Validate(shape, c) == Ok(c)
 
 \* _parse_common:377-384 after the sources were merged (a sub-command parser applies its own links, :278-280)
 AlgParse(shape, items) ==
   LET r == Fold(shape, Ok(Defaults(shape)), items, 1) IN
-  IF ~r.ok THEN Err ELSE Validate(shape, ApplyParsingLinks(shape, r.c, 1))
+  IF ~r.ok THEN Err ELSE Validate(shape, ApplyParsingLinks(shape, AddSubDefaults(shape, r.c), 1))
 
 \* strip_link_target_keys:450-472 (called by dump, _core.py:787-788)
 \*   :459-460  link actions that replaced a plain action: pop the key (a parent left empty is deleted, :456-457)
@@ -184,19 +241,40 @@ StripLink(shape, c, l) ==
   ELSE c
 RECURSIVE StripLinkTargets(_, _, _)
 StripLinkTargets(shape, c, i) == IF i > Len(shape.links) THEN c ELSE StripLinkTargets(shape, StripLink(shape, c, shape.links[i]), i + 1)
-AlgDump(shape, c) == StripLinkTargets(shape, c, 1)
-ListItemsKeepTarget(shape, c) == HasM(shape) /\ c.m.k = "list" /\ \E n \in DOMAIN c.m.v : "p" \in DOMAIN c.m.v[n].ia
-
-\* re-parsing the dump: every key of the dump is a config item
-DumpItems(shape, dump) ==
-  LET Cfg(key, val) == [chan |-> "cfg", key |-> key, val |-> val]
-      SpecOf(cv) == [k |-> "spec", c |-> cv.c, given |-> cv.ia]
-  IN <<Cfg("a", dump.a), Cfg("b", dump.b), Cfg("gx", dump.gx), Cfg("gy", dump.gy)>>
-     \o (IF dump.m.k = "cls" THEN <<Cfg("m", SpecOf(dump.m))>>
-         ELSE IF dump.m.k = "list" THEN <<Cfg("m", [k |-> "specs", v |-> [n \in DOMAIN dump.m.v |-> SpecOf(dump.m.v[n])]])>>
-         ELSE IF dump.m.k = "grp" THEN <<Cfg("m", [k |-> "spec", c |-> "Base", given |-> dump.m.ia])>>
-         ELSE << >>)
+\* dump(skip_none=True) (_core.py:808-833): entries whose value is None are left out, the meta keys are not dumped
+NotNone(ia) == [x \in {y \in DOMAIN ia : ia[y] # NoneV} |-> ia[x]]
+SkipNone(c) == [c EXCEPT !.s = IF c.s.k = "cls" THEN ClsV(c.s.c, NotNone(c.s.ia)) ELSE c.s,
+                         !.m = IF c.m.k = "cls" THEN ClsV(c.m.c, NotNone(c.m.ia))
+                               ELSE IF c.m.k = "grp" THEN GrpV(NotNone(c.m.ia))
+                               ELSE IF c.m.k = "list" THEN ListV([n \in DOMAIN c.m.v |-> ClsV(c.m.v[n].c, NotNone(c.m.v[n].ia))])
+                               ELSE c.m,
+                         !.mpath = Absent]
+AlgDump(shape, c) == SkipNone(StripLinkTargets(shape, c, 1))
+ListItemsKeepTarget(shape, c) == HasM(shape) /\ c.m.k = "list" /\ \E n \in DOMAIN c.m.v : "p" \in DOMAIN c.m.v[n].ia /\ c.m.v[n].ia["p"] # NoneV
+\* save(multifile=True) (_core.py:923-958): strip the targets of a clone (:925-926), write every value that carries
+\* __path__ into its own file (:929-947, the meta stripped, nothing else left out) and its name into the main file,
+\* which is then dumped (:956-958).  save(multifile=False) is dump() (:918-921).
+AlgSaveMulti(shape, c) ==
+  LET st == StripLinkTargets(shape, c, 1) IN
+  IF c.mpath = PathV /\ st.m.k \in {"grp", "cls"} THEN [main |-> [SkipNone(st) EXCEPT !.m = RefV], sub |-> st.m]
+  ELSE [main |-> SkipNone(st), sub |-> Absent]
+\* re-parsing a dump / a saved main file: every key of the text is a config item (a sub-config file is loaded again,
+\* so m carries __path__ again)
+SpecOf(cv) == [k |-> "spec", c |-> cv.c, given |-> cv.ia]
+MItems(chan, mv) ==
+  IF mv.k = "cls" THEN <<[chan |-> chan, key |-> "m", val |-> SpecOf(mv)]>>
+  ELSE IF mv.k = "list" THEN <<[chan |-> chan, key |-> "m", val |-> [k |-> "specs", v |-> [n \in DOMAIN mv.v |-> SpecOf(mv.v[n])]]]>>
+  ELSE IF mv.k = "grp" THEN <<[chan |-> chan, key |-> "m", val |-> [k |-> "spec", c |-> "Base", given |-> mv.ia]]>>
+  ELSE << >>
+PlainItems(dump) ==
+  LET Cfg(key, val) == [chan |-> "cfg", key |-> key, val |-> val] IN
+  <<Cfg("a", dump.a), Cfg("b", dump.b), Cfg("gx", dump.gx), Cfg("gy", dump.gy)>>
+  \o (IF dump.o.k \in {"absent", "none"} THEN << >> ELSE <<Cfg("o", dump.o)>>)
+  \o (IF dump.s.k = "cls" THEN <<Cfg("s", SpecOf(dump.s))>> ELSE << >>)
+DumpItems(shape, dump) == PlainItems(dump) \o MItems("cfg", dump.m)
 AlgReparse(shape, dump) == AlgParse(shape, DumpItems(shape, dump))
+AlgSaveReparse(shape, sv) ==
+  AlgParse(shape, PlainItems(sv.main) \o (IF sv.main.m.k = "ref" THEN MItems("cfgfile", sv.sub) ELSE MItems("cfg", sv.main.m)))
 
 \* link creation, _initial_input_checks:243-255 (apply_on = "parse")
 AlgLinkAllowed(created, new) ==
